@@ -39,6 +39,9 @@ CLAIMED['C15'] = ('irsym', 'bounded symbolic execution of the clang IR over the 
 CLAIMED['C16'] = ('irsym', 'bounded symbolic execution of the clang IR over the exact reals; Frustum objects built as symbolic memory state; z3 SMT-core/nlsat portfolio',
     'For every non-degenerate perspective and orthographic frustum in the stated range: projectionMatrix maps the eight corners to the cube corners; projectPointToScreen equals the x,y of point*projectionMatrix; every point of projectScreenToRay(s) projects back to s; normalizedZToDepth agrees with the matrix depth; worldRadius inverts screenRadius; aspect; planes() returns six unit outward normals in the documented order, each through its own four corners with all corners on the non-positive side. FrustumTest::isVisible(point) is thorough-tier and budgeted.',
     ENGC_NOTE + ' ZToDepth/DepthToZ (integer casts), fov functions, planes(M) and box/sphere culling are not decided.', '3/C16')
+CLAIMED['C13'] = ('ir2c+irsym', 'bounded model checking (CBMC) of the clang IR of Box/Interval translated to C over all bit patterns, one inductive extendBy step from an arbitrary valid box; engine C (exact reals, z3) for nearest-point and tight-transform claims',
+    'Box<Vec2/3/4> of int, short, float (generic template and specialisations) and Interval: membership, emptiness, infinity, symmetric intersects(box) tied to a shared witness point, one inductive extendBy(point/box) step from ANY reachable box (so histories of any length), size/center/majorAxis, specialisation == generic output-for-output - all by solver over every bit pattern (floats: all finite values). clip/closestPointInBox/closestPointOnBox nearest-point claims with a universally quantified competitor, and transform/affineTransform (4 overloads): exact tight bound of the eight corner images for affine matrices, empty->empty, infinite->infinite.',
+    'Trusted: clang-14, vf/ll2c.py and vf/irsym.py (validated each run), CBMC, z3. extendBy histories rely on the stated representation invariant (canonical empty or min<=max), which each step is proved to re-establish. Projective transforms beyond empty/infinite handling and rounding in the Arvo accumulation are outside.', '3/C13')
 NOT_YET = 'check not built yet in this working session (planned in DESIGN.md section 3); no claim is made'
 NA = {}
 
@@ -69,7 +72,7 @@ def main():
         'engines': [
             {'name': 'cbmc-c', 'path': 'harness/c01/half_c.c + vf/cbmc.py', 'serves_properties': ['C01', 'C02'], 'kind_free_text': 'CBMC on half.h compiled as C'},
             {'name': 'ir2c', 'path': 'vf/ll2c.py + vf/build.py + vf/cbmc.py', 'serves_properties': sorted(CLAIMED), 'kind_free_text': 'clang++-14 -O1 LLVM IR of wrapper TUs (real headers / real .cpp) -> own IR->C translator -> CBMC (minisat/cadical/kissat/z3/cvc5)'},
-            {'name': 'irsym', 'path': 'vf/irsym.py + vf/symcase.py', 'serves_properties': ['C05', 'C06', 'C09', 'C14', 'C15', 'C16'], 'kind_free_text': 'own symbolic executor over the same LLVM IR, floats as exact reals, z3 nlsat'},
+            {'name': 'irsym', 'path': 'vf/irsym.py + vf/symcase.py', 'serves_properties': ['C05', 'C06', 'C09', 'C13', 'C14', 'C15', 'C16'], 'kind_free_text': 'own symbolic executor over the same LLVM IR, floats as exact reals, z3 nlsat'},
         ],
         'checks': checks,
         'not_applicable': na,
